@@ -12,8 +12,11 @@ package main
 
 import (
 	"bufio"
+	"encoding/json"
 	"fmt"
 	"os"
+	"os/exec"
+	"path/filepath"
 	"sort"
 	"strconv"
 	"strings"
@@ -267,6 +270,142 @@ func exhaustive(depth int) int {
 	return id
 }
 
+// ---------- command line layer (cmd/bondmachine) ----------
+
+func cliArgs(e string) []string {
+	f := strings.Fields(e)
+	switch f[0] {
+	case "addin":
+		return []string{"-add-inputs", f[1]}
+	case "addout":
+		return []string{"-add-outputs", f[1]}
+	case "delin":
+		return []string{"-del-inputs", f[1]}
+	case "delout":
+		return []string{"-del-outputs", f[1]}
+	case "addbond":
+		return []string{"-add-bond", f[1] + "," + f[2]}
+	case "delbonds":
+		return []string{"-del-bonds", f[1]}
+	}
+	return nil
+}
+
+func idList(r *common.Rng, limit int) string {
+	n := 1 + r.Intn(4)
+	var l []string
+	for i := 0; i < n; i++ {
+		l = append(l, strconv.Itoa(r.Intn(limit+2)))
+	}
+	if r.Chance(1, 3) && len(l) > 1 { // a repeated id
+		l[len(l)-1] = l[0]
+	}
+	return strings.Join(l, ",")
+}
+
+// runCliHistory builds a machine through the API (edits printed as usual), saves it, then drives
+// the real cmd/bondmachine binary on the file; after every invocation the file is loaded back.
+func runCliHistory(id int, cli string, dir string, setup []string, cedits []string) {
+	out.Line("H %d", id)
+	bm := newBM()
+	for _, e := range setup {
+		out.Line("E %s", e)
+		isErr, perr := applyEdit(bm, e)
+		if perr != nil {
+			out.Line("bad-edit %v", perr)
+			out.Flush()
+			return
+		}
+		out.Line("%s", dump(bm, isErr))
+	}
+	file := filepath.Join(dir, "bm.json")
+	b, err := json.Marshal(bm.Jsoner())
+	if err != nil {
+		out.Line("panic:json %v", err)
+		out.Flush()
+		return
+	}
+	os.WriteFile(file, b, 0644)
+	for _, e := range cedits {
+		out.Line("C %s", e)
+		args := append([]string{"-bondmachine-file", file}, cliArgs(e)...)
+		cmd := exec.Command(cli, args...)
+		cmd.Dir = dir
+		if o, err := cmd.CombinedOutput(); err != nil {
+			out.Line("panic:cli %v %s", err, strings.ReplaceAll(string(o), "\n", " "))
+			break
+		}
+		raw, _ := os.ReadFile(file)
+		var bj bondmachine.Bondmachine_json
+		if err := json.Unmarshal(raw, &bj); err != nil {
+			out.Line("panic:load %v", err)
+			break
+		}
+		res := common.Guard(func() string { return dump((&bj).Dejsoner(), false) })
+		out.Line("%s", res)
+	}
+	out.Flush()
+}
+
+func genCliHistory(r *common.Rng, maxlen int) ([]string, []string) {
+	s := &shadow{}
+	var setup []string
+	// a machine with processors first or IO first (both orders matter for the slot arithmetic)
+	np := 1 + r.Intn(3)
+	addProcs := func() {
+		for i := 0; i < np; i++ {
+			a, b := 1+r.Intn(3), 1+r.Intn(3)
+			setup = append(setup, fmt.Sprintf("ap %d %d", a, b))
+			s.procs = append(s.procs, [2]int{a, b})
+			s.slots += a
+		}
+	}
+	addIO := func() {
+		for i, n := 0, 1+r.Intn(4); i < n; i++ {
+			setup = append(setup, "ai")
+			s.inputs++
+		}
+		for i, n := 0, 1+r.Intn(4); i < n; i++ {
+			setup = append(setup, "ao")
+			s.outputs++
+			s.slots++
+		}
+	}
+	if r.Bool() {
+		addProcs()
+		addIO()
+	} else {
+		addIO()
+		addProcs()
+	}
+	for i, n := 0, 2+r.Intn(6); i < n; i++ {
+		setup = append(setup, "ab "+s.inName(r)+" "+s.outName(r))
+	}
+	var c []string
+	for i, n := 0, 1+r.Intn(maxlen); i < n; i++ {
+		switch r.Intn(8) {
+		case 0:
+			k := 1 + r.Intn(2)
+			c = append(c, "addin "+strconv.Itoa(k))
+			s.inputs += k
+		case 1:
+			k := 1 + r.Intn(2)
+			c = append(c, "addout "+strconv.Itoa(k))
+			s.outputs += k
+			s.slots += k
+		case 2, 3:
+			c = append(c, "delin "+idList(r, s.inputs))
+		case 4, 5:
+			c = append(c, "delout "+idList(r, s.outputs))
+		case 6:
+			c = append(c, "addbond "+s.inName(r)+" "+s.outName(r))
+		default:
+			c = append(c, "delbonds "+idList(r, s.slots))
+		}
+	}
+	return setup, c
+}
+
 func main() {
 	if len(os.Args) < 2 {
 		fmt.Fprintln(os.Stderr, "usage: c10 gen <histories> <maxlen> | exhaustive <depth> | replay <file>")
@@ -280,6 +419,15 @@ func main() {
 		for i := 0; i < n; i++ {
 			runHistory(i, genHistory(r, maxlen))
 		}
+	case "cli": // c10 cli <cases> <maxlen> <path of the bondmachine binary> <scratch dir>
+		n, _ := strconv.Atoi(os.Args[2])
+		maxlen, _ := strconv.Atoi(os.Args[3])
+		r := common.NewRng(common.Seed() + 77)
+		os.MkdirAll(os.Args[5], 0755)
+		for i := 0; i < n; i++ {
+			setup, c := genCliHistory(r, maxlen)
+			runCliHistory(i, os.Args[4], os.Args[5], setup, c)
+		}
 	case "exhaustive":
 		d, _ := strconv.Atoi(os.Args[2])
 		exhaustive(d)
@@ -290,14 +438,18 @@ func main() {
 			os.Exit(2)
 		}
 		sc := bufio.NewScanner(f)
-		var es []string
+		var es, cs []string
 		id := 0
 		flush := func() {
-			if len(es) > 0 {
+			if len(cs) > 0 && len(os.Args) >= 5 { // a command line history: replay <file> <cli> <scratch>
+				os.MkdirAll(os.Args[4], 0755)
+				runCliHistory(id, os.Args[3], os.Args[4], es, cs)
+				id++
+			} else if len(es) > 0 {
 				runHistory(id, es)
 				id++
-				es = nil
 			}
+			es, cs = nil, nil
 		}
 		for sc.Scan() {
 			l := strings.TrimSpace(sc.Text())
@@ -305,6 +457,8 @@ func main() {
 				flush()
 			} else if strings.HasPrefix(l, "E ") {
 				es = append(es, strings.TrimPrefix(l, "E "))
+			} else if strings.HasPrefix(l, "C ") {
+				cs = append(cs, strings.TrimPrefix(l, "C "))
 			}
 		}
 		flush()
